@@ -379,7 +379,14 @@ class World(object):
         sch = _sched.get_scheduler()
         if isinstance(batch, HBatch):
             menu = {batch.kind: batch}
-            for b in sch._batches:
+            try:
+                pending = list(sch._batches)
+            except AttributeError:
+                # the scheduler no longer exposes its pending set under this name: a failure of the harness,
+                # reported as such (exit 2), never as a verdict on asynq
+                pending = []
+                self.v("harness", "cannot read TaskScheduler._batches")
+            for b in pending:
                 if isinstance(b, HBatch) and b.items and not b.is_flushed():
                     menu[b.kind] = b
             kinds = tuple(sorted(menu))
